@@ -44,7 +44,7 @@ def plan(tier):
 
 
 def n_tables(tier):
-    return 70 if tier == 'thorough' else 11
+    return 55 if tier == 'thorough' else 9
 
 
 def _tgt(rng, allow_series=True):
@@ -209,6 +209,7 @@ def check_case(case, ctx):
             i = k + 1 + j
             ctx.count('resumed_results_compared')
             ctx.count(cmpname)
+            ctx.count('cmp_op_%s.%s' % (fam, op['agg']))
             if lens[i] > 0:
                 interesting = True
             ea, eb = errs[i], tr.errs[j]
